@@ -339,6 +339,57 @@ class Body:
             st.extend(self.succs(b))
         return seen
 
+    def reachable_without_edge(self, edge):
+        """blocks reachable from entry when CFG edge (src, dst) is removed"""
+        src, dst = edge
+        seen = {0}
+        st = [0]
+        while st:
+            b = st.pop()
+            for s in self.succs(b):
+                if b == src and s == dst:
+                    continue
+                if s not in seen:
+                    seen.add(s)
+                    st.append(s)
+        return seen
+
+    def edge_dominates(self, edge, bb):
+        """every path from entry to bb uses the CFG edge (src, dst)"""
+        if bb not in self.reachable():
+            return False
+        return bb not in self.reachable_without_edge(edge)
+
+    def switch_edges(self):
+        """(bb, discr operand, [(value|None for otherwise, target)])"""
+        out = []
+        for bb in sorted(self.reachable()):
+            t = self.blocks[bb]["term"]
+            if t["k"] == "switch":
+                arms = [(v, tg) for v, tg in t["targets"]]
+                arms.append((None, t["otherwise"]))
+                out.append((bb, t, arms))
+        return out
+
+    def guards(self, bb):
+        """switch outcomes that dominate bb: list of (switch bb, term, value or ('not', [values]))"""
+        res = []
+        for sb, t, arms in self.switch_edges():
+            if sb == bb:
+                continue
+            tg_count = {}
+            for v, tg in arms:
+                tg_count[tg] = tg_count.get(tg, 0) + 1
+            for v, tg in arms:
+                if tg_count[tg] != 1:
+                    continue  # two values lead to the same block: edge identity is ambiguous
+                if self.edge_dominates((sb, tg), bb):
+                    if v is None:
+                        res.append((sb, t, ("not", [x for x, _ in arms if x is not None])))
+                    else:
+                        res.append((sb, t, v))
+        return res
+
     def natural_loops(self):
         """list of (header, set(body blocks)) for back edges t->h with h dom t."""
         dom = self.dominators()
